@@ -453,6 +453,7 @@ void RouterSession::run() {
                 RectB nb = bbox(np); bool outside = false;
                 for (auto &pm : it->second.pins) if (!pm.prop && ((pm.xo > 0 && pm.xo > nb.w - 1) || (pm.yo > 0 && pm.yo > nb.h - 1))) outside = true;
                 if (outside) continue;
+                if (!reshapeKeepsPinsApart(it->second, np)) continue;
             }
             Poly old = it->second.poly;
             it->second.poly = np; it->second.isRect = op.boolean("rect", false);
